@@ -1368,6 +1368,11 @@ def check_C10(work, tier, seed):
     lines = []
     for sc in scs:
         lines += conform(work, b, "C10", seed, sc.text(), out)
+    # an optimising compiler can hide a tweakey row that a partial load forgot to clear (it sits in
+    # a register that happens to be zero): the same scenario on unoptimised gcc and on clang
+    for name, cc, opt in (("gcc-O0", "gcc", "-O0"), ("clang-O2", "clang", "-O2")):
+        b2 = build(work, name=name, cc=cc, opt=opt)
+        axis_compare(work, "C10", seed, out, lines, "%s, stack painted" % name, b2, scs[0].text(), "-" + name)
     note_distinct(out, lines, ("o", "len", "nr"))
     out.samples = sample_events([x for x in lines if "set_key" in x or "set_tweaked_key" in x], maxlen=200)
     return out, dict(
